@@ -8,6 +8,8 @@ import shutil
 import tempfile
 import subprocess
 import concurrent.futures as cf
+import atexit
+import threading
 
 VERIF = '/verif'
 REPO = os.environ.get('REPO', '/repo')
@@ -25,7 +27,7 @@ def go_env(extra=None, scratch=True):
     env.update({'GOTOOLCHAIN': 'local', 'GOPROXY': 'off', 'GONOSUMDB': '*', 'GOSUMDB': 'off',
                 'CGO_ENABLED': env.get('CGO_ENABLED', '1')})
     env['GOFLAGS'] = '-mod=mod' if scratch else ''
-    env['GOCACHE'] = GOCACHE
+    env['GOCACHE'] = gocache()
     if extra:
         env.update(extra)
     return env
@@ -78,33 +80,54 @@ def build_cli(work, tags='verif'):
     return out
 
 
-GOCACHE = os.path.join(os.environ.get('VERIF_CACHE', '/root/.cache/kessoku-verif'), 'gocache')
-GOCACHE_LIMIT_KB = 12 * 1024 * 1024
+BASE_CACHE = os.path.join(os.environ.get('VERIF_CACHE', '/root/.cache/kessoku-verif'), 'gocache')
+PROC_CACHE_LIMIT_KB = 10 * 1024 * 1024
+_proc_cache = {'dir': None}
+_cache_lock = threading.Lock()
+
+
+def _clone_base(d):
+    os.makedirs(BASE_CACHE, exist_ok=True)
+    p = subprocess.run(['cp', '-al', BASE_CACHE + '/.', d], capture_output=True, text=True)
+    if p.returncode != 0:
+        subprocess.run(['cp', '-a', BASE_CACHE + '/.', d], capture_output=True, text=True)
+
+
+def gocache():
+    """The Go build cache of THIS check process: a hard-link clone of the warm base cache ($VERIF_CACHE/gocache: std with
+    -race, the CLI's dependencies, the harness), private to the process and removed at exit.  Scratch packages are
+    unique, so a shared cache would only grow, and trimming a shared cache breaks the builds of checks running at the
+    same time.  Nothing ever deletes from the base cache while checks run (bin/setup.sh rebuilds it when it is alone)."""
+    if os.environ.get('VERIF_SHARED_GOCACHE'):
+        return BASE_CACHE
+    with _cache_lock:
+        if _proc_cache['dir'] is None:
+            base = os.environ.get('VERIF_TMP', tempfile.gettempdir())
+            d = tempfile.mkdtemp(prefix='verif-gocache-', dir=base)
+            _clone_base(d)
+            atexit.register(shutil.rmtree, d, True)
+            _proc_cache['dir'] = d
+        return _proc_cache['dir']
 
 
 def trim_gocache():
-    """Scratch packages are unique, so the build cache only grows: drop it when it exceeds the limit (disk is limited)."""
-    os.makedirs(GOCACHE, exist_ok=True)
+    """Call only where this process runs no build: drop the private cache and clone the base again once it is large."""
+    d = _proc_cache['dir']
+    if d is None:
+        return
     try:
-        kb = int(subprocess.run(['du', '-sk', GOCACHE], capture_output=True, text=True, timeout=300).stdout.split()[0])
+        kb = int(subprocess.run(['du', '-sk', d], capture_output=True, text=True, timeout=600).stdout.split()[0])
     except Exception:
         return
-    if kb > GOCACHE_LIMIT_KB:
-        lock = GOCACHE + '.trim.lock'
-        try:
-            fd = os.open(lock, os.O_CREAT | os.O_EXCL | os.O_WRONLY)
-        except FileExistsError:
-            return
-        try:
-            subprocess.run(['go', 'clean', '-cache'], env=go_env(scratch=False), timeout=900)
-        finally:
-            os.close(fd)
-            os.remove(lock)
+    if kb > PROC_CACHE_LIMIT_KB:
+        with _cache_lock:
+            shutil.rmtree(d, ignore_errors=True)
+            os.makedirs(d, exist_ok=True)
+            _clone_base(d)
 
 
 def build_tools():
     """Build the harness tools (drivergen, extract, ...) into /verif/build (idempotent, fast)."""
-    trim_gocache()
     os.makedirs(os.path.join(VERIF, 'build'), exist_ok=True)
     p = run(['go', 'build', '-o', os.path.join(VERIF, 'build') + '/', './cmd/...'], cwd=os.path.join(VERIF, 'harness'),
             env=go_env(scratch=False), timeout=600)
